@@ -205,12 +205,24 @@ def judge(ctx, c, case):
                 # the user takes the reported format (with its '(width)' notes) and edits only the limits
                 t.fmt = str(t.fmt).split(";")[0] + c['le_limits']
             elif stage == 'reformatted':
-                t.fmt = c['fmt2']
+                if len(c['fmt2']) % 3 == 0 and hasattr(t, 'set_fmt'):
+                    # (the method form of the setter hands the table back: calls can be chained)
+                    back = t.set_fmt(c['fmt2'])
+                    if back is not t:
+                        ctx.violation("set-fmt-does-not-hand-back-the-table", {"got": type(back).__name__}, case)
+                        return
+                else:
+                    t.fmt = c['fmt2']
             elif stage == 'columns-removed':
                 if not c['remove']:
                     break
                 before = str(t.fmt)
-                t.remove_columns(c['remove'])
+                if len(c['remove']) % 2 and hasattr(t.fmt, 'remove_columns'):
+                    # (the columns are taken out through the format object the table hands out)
+                    t.fmt.remove_columns(c['remove'])
+                    ctx.count("columns_removed_through_the_format_object")
+                else:
+                    t.remove_columns(c['remove'])
                 if not str(t.fmt).split(";")[0]:
                     break  # all columns removed: nothing to print
         except Exception as err:
